@@ -54,6 +54,30 @@ SEC_SETUP = {"nfund": 2, "pad": 3}
 
 
 # ------------------------------------------------------------------ helpers
+def validate(module, cfg, ndjson, tag, cfg_fallback):
+    """trace validation; VIOL / NONCONF / CONSUMED lines are collected by tag (so that a run with very many
+    Layer-M mismatches - e.g. after a change of the seed-file format - still yields a verdict).
+    Returns (viols, nonconfs, number of nonconformances printed)"""
+    def one(c, t):
+        r = run_tlc(module, c, t, workers=1, env={"TRACE": ndjson}, timeout=1800, depth_first=True,
+                    keep_tags=("VIOL", "NONCONF", "CONSUMED", "STUCK"), max_keep=50000)
+        return r, r["printed_counts"]["CONSUMED"] > 0
+    r, ok = one(cfg, "tv_" + tag)
+    aborted = []
+    if not ok:
+        # Layer M evaluation aborted TLC (a model operator undefined on an observed state): a
+        # nonconformance of its own; re-judge with Layer P alone
+        aborted = [{"line": -1, "b": -1, "ev": "?", "what": "LayerM-evaluation-aborted"}]
+        r1 = r
+        r, ok = one(cfg_fallback, "tvp_" + tag)
+        if not ok:
+            log(r["out"][-3000:])
+            raise ToolError("trace validation did not consume the trace")
+        nonconfs = parse_printed(r1["printed"]["NONCONF"], "NONCONF") + aborted
+        return parse_printed(r["printed"]["VIOL"], "VIOL"), nonconfs, r1["printed_counts"]["NONCONF"] + 1
+    return parse_printed(r["printed"]["VIOL"], "VIOL"), parse_printed(r["printed"]["NONCONF"], "NONCONF"), r["printed_counts"]["NONCONF"]
+
+
 def _viol_keys(viols, kind, inputs, extra_info):
     """first occurrence per (monitor, class) -> key dict; `inputs[b]` is the stimulus of behaviour b"""
     keys = {}
@@ -174,8 +198,7 @@ def seed_part(tier, rnd, extra_sched=None, only_extra=False, extra_trunc=None, b
     nd = replay("replay_seed", {"seed": seed(), "npws": 3, "b0": b0, "behaviours": behaviours, "trunc": trunc}, "C12_seed")
     events = read_ndjson(nd)
     t2 = time.time()
-    viols, nonconfs, m_ok, _ = validate_trace("TraceSeedFile.tla", "TraceSeedFile.cfg", nd, "C12_seed",
-                                              cfg_fallback="TraceSeedFileP.cfg")
+    viols, nonconfs, n_nc = validate("TraceSeedFile.tla", "TraceSeedFile.cfg", nd, "C12_seed", "TraceSeedFileP.cfg")
     log("  SeedFile: %d events recorded (%.0fs), validated by TLC (%.0fs): %d monitor failures, %d nonconformances" % (
         len(events), t2 - t1, time.time() - t2, len(viols), len(nonconfs)))
     keys = _viol_keys([v for v in viols if v["p"] == "C12"], "seed", behaviours + [[{"ev": "trunc", "case": t}] for t in trunc],
@@ -287,8 +310,7 @@ def sec_part(tier, rnd, extra_beh=None, only_extra=False, setup=None):
         nd = replay("replay_secrets", {"setup": st, "behaviours": bl}, "C12_sec%d" % gi)
         events = read_ndjson(nd)
         t2 = time.time()
-        viols, nc, m_ok, _ = validate_trace("TraceSecrets.tla", "TraceSecrets.cfg", nd, "C12_sec%d" % gi,
-                                            cfg_fallback="TraceSecretsP.cfg")
+        viols, nc, n_nc = validate("TraceSecrets.tla", "TraceSecrets.cfg", nd, "C12_sec%d" % gi, "TraceSecretsP.cfg")
         log("  Secrets: %d events recorded (%.0fs), validated by TLC (%.0fs): %d monitor failures, %d nonconformances" % (
             len(events), t2 - t1, time.time() - t2, len(viols), len(nc)))
         k2 = _viol_keys([v for v in viols if v["p"] == "C12"], "secrets", bl, {"setup": st})
